@@ -1002,11 +1002,18 @@ func TestDirectiveResolvedFamilies(t *testing.T) {
 		terms     []string
 		n         int
 		want      func([]string) (string, bool)
+		langOnly  bool // compare acceptance only (the rendering of the oracle belongs to another form of the grammar)
 	}
 	fams := []fam{
 		{"dangling_else_resolved", "grammar g;\n@right \"i\" \"e\"\nstart = \"i\" start | \"i\" start \"e\" start | \"o\";\n", []string{"i", "e", "o"}, 8,
-			func(w []string) (string, bool) { s, j, ok := parseIf(w, 0); return s, ok && j == len(w) }},
-		{"juxtaposition_with_rule_handle", "grammar g;\n@left <start = start start>\n@left \"n\" \"(\"\n@left \"+\"\nstart = start start | start \"+\" start | \"(\" start \")\" | \"n\";\n", []string{"n", "+", "(", ")"}, 7, parseApp},
+			func(w []string) (string, bool) { s, j, ok := parseIf(w, 0); return s, ok && j == len(w) }, false},
+		{"juxtaposition_with_rule_handle", "grammar g;\n@left <start = start start>\n@left \"n\" \"(\"\n@left \"+\"\nstart = start start | start \"+\" start | \"(\" start \")\" | \"n\";\n", []string{"n", "+", "(", ")"}, 7, parseApp, false},
+		// the else part as a rule of its own with an empty alternative: the conflict is between shifting "e" and reducing
+		// the empty production, which can get its precedence through a rule handle only
+		{"dangling_else_with_empty_else_part", "grammar g;\n@right \"e\" <ep = >\nstart = \"i\" start ep | \"o\";\nep = \"e\" start | ;\n", []string{"i", "e", "o"}, 8,
+			func(w []string) (string, bool) { s, j, ok := parseIf(w, 0); return s, ok && j == len(w) }, true},
+		{"dangling_else_with_empty_else_part_directive_last", "grammar g;\nstart = \"i\" start ep | \"o\";\nep = \"e\" start | ;\n@right <ep = > \"e\";\n", []string{"i", "e", "o"}, 8,
+			func(w []string) (string, bool) { s, j, ok := parseIf(w, 0); return s, ok && j == len(w) }, true},
 	}
 	for _, f := range fams {
 		_, T, perr, terr, panicked := build(f.src)
@@ -1027,7 +1034,7 @@ func TestDirectiveResolvedFamilies(t *testing.T) {
 			if acc != ok {
 				rec.Fail(t, "family", input{Kind: "family", Spec: f.src}, "[%s] is a sentence: %v, the table accepts it: %v\nspecification:\n%s", strings.Join(w, " "), ok, acc, f.src)
 			}
-			if acc && got != want {
+			if acc && got != want && !f.langOnly {
 				rec.Fail(t, "family", input{Kind: "family", Spec: f.src}, "[%s] is parsed as %s, the directives dictate %s\nspecification:\n%s", strings.Join(w, " "), got, want, f.src)
 			}
 		}
